@@ -121,5 +121,87 @@ theorem reach_desc (s : Step) (rest : LocPath) (hs : NonPositional ns xvs s) (ha
   rw [reach_cons ns xvs (withAxis .descendantOrSelf s) rest (nonpos_withAxis ns xvs _ s hs)]
   simp [withAxis, axisNodes, hitR]
 
+/-! ## Positions of a step list as seen from a candidate node -/
+
+/-- the axis of a step when the node at hand *is* a candidate for it -/
+def convAxis : Axis → Axis
+  | .child => .self
+  | .descendant => .descendantOrSelf
+  | a => a
+
+/-- what is left to do when the node at hand is a candidate for step `x` -/
+def pathAt (S : List Step) (x : Nat) : LocPath :=
+  match S.drop x with
+  | [] => []
+  | s :: rest => withAxis (convAxis s.axis) s :: rest
+
+/-- `t` is reached from candidate `c` of step `x` -/
+def RR (S : List Step) (x : Nat) (c t : LNode) : Bool := reach ns xvs (pathAt S x) c t
+
+theorem drop_of_getElem? {S : List Step} {x : Nat} {s : Step} (h : S[x]? = some s) :
+    S.drop x = s :: S.drop (x + 1) := by
+  obtain ⟨hlt, hs⟩ := List.getElem?_eq_some_iff.mp h
+  rw [List.drop_eq_getElem_cons hlt, hs]
+
+/-- (F1) a candidate either passes the step itself, or (descendant axes) hands the position
+    to its children -/
+theorem RR_unfold (S : List Step) (x : Nat) (s : Step) (h : S[x]? = some s)
+    (hs : NonPositional ns xvs s) (hna : s.axis ≠ .attribute) (c t : LNode) :
+    RR ns xvs S x c t =
+      ((hitR ns xvs s c && reach ns xvs (S.drop (x + 1)) c t) ||
+       ((s.axis == .descendant || s.axis == .descendantOrSelf) &&
+         (childrenOf c).any fun k => RR ns xvs S x k t)) := by
+  unfold RR pathAt
+  rw [drop_of_getElem? h]
+  simp only
+  cases hax : s.axis with
+  | «attribute» => exact absurd hax hna
+  | self =>
+    simp only [convAxis]
+    rw [reach_self ns xvs _ _ (nonpos_withAxis ns xvs _ s hs) rfl, hitR_withAxis]
+    simp
+  | child =>
+    simp only [convAxis]
+    rw [reach_self ns xvs _ _ (nonpos_withAxis ns xvs _ s hs) rfl, hitR_withAxis]
+    simp
+  | descendant =>
+    simp only [convAxis]
+    rw [reach_dos ns xvs _ _ (nonpos_withAxis ns xvs _ s hs) rfl, hitR_withAxis]
+    simp
+  | descendantOrSelf =>
+    simp only [convAxis]
+    rw [reach_dos ns xvs _ _ (nonpos_withAxis ns xvs _ s hs) rfl, hitR_withAxis]
+    simp
+
+/-- (F2) after the last step -/
+theorem reach_drop_end (S : List Step) (x : Nat) (h : S[x]? = none) (c t : LNode) :
+    reach ns xvs (S.drop x) c t = (c.loc == t.loc) := by
+  have : S.length ≤ x := by simpa using h
+  rw [List.drop_eq_nil_of_le this]; rfl
+
+/-- (F2) the remaining steps, seen from the node that passed the previous step -/
+theorem reach_drop (S : List Step) (x : Nat) (s : Step) (h : S[x]? = some s)
+    (hs : NonPositional ns xvs s) (hna : s.axis ≠ .attribute) (c t : LNode) :
+    reach ns xvs (S.drop x) c t =
+      if s.axis == .self || s.axis == .descendantOrSelf then RR ns xvs S x c t
+      else (childrenOf c).any fun k => RR ns xvs S x k t := by
+  unfold RR pathAt
+  rw [drop_of_getElem? h]
+  simp only
+  cases hax : s.axis with
+  | «attribute» => exact absurd hax hna
+  | self =>
+    have : withAxis (convAxis .self) s = s := by rw [← hax]; cases s; simp [withAxis, convAxis] at *; simp [hax, convAxis]
+    simp [this]
+  | descendantOrSelf =>
+    have : withAxis (convAxis .descendantOrSelf) s = s := by cases s; simp [withAxis, convAxis] at *; simp [hax]
+    simp [this]
+  | child =>
+    simp only [convAxis]
+    rw [reach_child ns xvs s _ hs hax]; simp
+  | descendant =>
+    simp only [convAxis]
+    rw [reach_desc ns xvs s _ hs hax]; simp
+
 end
 end Genshi.Path
